@@ -39,12 +39,21 @@ def cases(rng, n, only=None):
     def add(what, mod, cls, P, pdims, pts, t, fdims, tol=1e-7, ptdim=LEN, tdim=TIME):
         if only and what not in only:
             return
-        sc = tuple(r4(rng, 0.05, 20) for _ in range(4))
-        S = scale_params(P, pdims, sc)
-        fl = dim(*sc, **ptdim)
-        spts = [[x * fl for x in p] if isinstance(p, (list, tuple)) else p * fl for p in pts]
-        out.append({'what': what + ' units', 'a': [mod, cls, P, pts, t], 'b': [mod, cls, S, spts, t * dim(*sc, **tdim)],
-                    'factors': {f: dim(*sc, **d) for f, d in fdims.items()}, 'tol': tol, 'scales': list(sc)})
+        scs = [tuple(r4(rng, 0.05, 20) for _ in range(4))]
+        if not what.startswith('GenEOS'):     # GenEOS: absolute tolerances (known finding geneos-absolute-tolerances), replayed separately
+            # and a change to very different units (cm -> km, s -> us, g -> t ...): a hidden dimensional constant (floor, offset, absolute
+            # tolerance) shows only then; one of the three factors is pushed to an extreme in turn
+            for k in range(3):
+                for sgn in (-1, 1):
+                    ext = [float('%.3g' % (10 ** rng.uniform(-1.5, 1.5))) for _ in range(3)]
+                    ext[k] = float('%.3g' % (10 ** (sgn * rng.uniform(3, 5))))
+                    scs.append(tuple(ext) + (scs[0][3],))
+        for sc in scs:
+            S = scale_params(P, pdims, sc)
+            fl = dim(*sc, **ptdim)
+            spts = [[x * fl for x in p] if isinstance(p, (list, tuple)) else p * fl for p in pts]
+            out.append({'what': what + ' units', 'a': [mod, cls, P, pts, t], 'b': [mod, cls, S, spts, t * dim(*sc, **tdim)],
+                        'factors': {f: dim(*sc, **d) for f, d in fdims.items()}, 'tol': tol, 'scales': list(sc)})
     for _ in range(n):
         g = rng.choice([1, 2, 3]); gam = r4(rng, 1.2, 2.2)
         # Sedov (points on both sides of the shock)
@@ -141,3 +150,25 @@ if __name__ == '__main__':
     res = H.run_real(SO.SCRIPT, ps, timeout=1800)
     for p, r in zip(ps, res):
         print('%-28s' % p['what'], 'ok' if not r else json.dumps(r)[:300])
+
+
+GENEOS_WITNESS = {'pl': 1.0, 'pr': 0.1, 'rl': 1.0, 'rr': 0.125, 'ul': 0.0, 'ur': 0.0, 'gl': 1.4, 'gr': 1.4, 'xmin': 0.0, 'xd0': 0.5, 'xmax': 1.0, 't': 0.25}
+GENEOS_SCALES = (395.0, 24300.0, 94900.0, 1.0)
+
+
+def replay_geneos():
+    """Sod problem re-expressed in units in which the densities are ~3e-11 and the pressures ~2e-18"""
+    P = GENEOS_WITNESS
+    dims = {'pl': PRES, 'pr': PRES, 'rl': DENS, 'rr': DENS, 'ul': VEL, 'ur': VEL, 'xmin': LEN, 'xd0': LEN, 'xmax': LEN, 't': TIME}
+    S = scale_params(P, dims, GENEOS_SCALES)
+    pts = [0.1, 0.3, 0.45, 0.6, 0.7, 0.8, 0.95]
+    fl = dim(*GENEOS_SCALES, **LEN)
+    c = {'what': 'GenEOS witness', 'a': ['exactpack.solvers.riemann.ep_riemann', 'GenEOS_Solver', P, pts, 0.25],
+         'b': ['exactpack.solvers.riemann.ep_riemann', 'GenEOS_Solver', S, [x * fl for x in pts], 0.25 * dim(*GENEOS_SCALES, **TIME)],
+         'factors': {k: dim(*GENEOS_SCALES, **HYD[k]) for k in ('density', 'pressure', 'specific_internal_energy', 'velocity')}, 'tol': 1e-3}
+    r = H.run_real(SO.SCRIPT, [c], timeout=900)[0]
+    if r and 'error' not in r:
+        return {'problem': P, 'unit_factors(mass,length,time)': list(GENEOS_SCALES[:3]), 'fields_that_do_not_transform': {k: v['max_rel_diff'] for k, v in r.items()}}
+    if r and 'error' in r:
+        return {'problem': P, 'unit_factors(mass,length,time)': list(GENEOS_SCALES[:3]), 'error_in_rescaled_units': r['error']}
+    return None
